@@ -106,6 +106,8 @@ type World struct {
 	// EverCompact: some committed register used the shared compact-map encoding at some commit.
 	EverCompact bool
 
+	traceMode bool
+
 	TrackCommits bool // keep a model+ledger snapshot at every commit (crash oracle)
 	KeyStorage bool // include storage-layer counters in the state key
 	StrictErr bool // also compare error categories/types of rejected requests (C18)
@@ -315,6 +317,11 @@ func (w *World) CmpValue(real atree.Value, m MV) error {
 		r, ok := real.(tu.Uint64Value)
 		if !ok || uint64(r) != m.N {
 			return violf("got %T(%v), want scalar %d", real, real, m.N)
+		}
+	case U8:
+		r, ok := real.(tu.Uint8Value)
+		if !ok || uint8(r) != m.N {
+			return violf("got %T(%v), want byte %d", real, real, m.N)
 		}
 	case Str:
 		r, ok := real.(tu.StringValue)
